@@ -94,6 +94,7 @@ def _kf_arange(solver_name, cls, t, t0, t1, dt):
 # ---------------------------------------------------------------------------------------------
 # cases
 # ---------------------------------------------------------------------------------------------
+EPS_T = float(np.finfo(float).eps)
 DYNAMIC = ["Moreau", "Rattle", "BackwardEuler", "DualStormerVerlet:LU", "DualStormerVerlet:MINRES", "DualStormerVerlet:MINRES (matrix free)",
            "ScipyIVP", "ScipyDAE"]
 SYSTEMS_SMOOTH = ["free_pm", "free_rb", "pendulum_pm", "pendulum_rb_spherical", "pendulum_rb_revolute", "spring_compliance"]
@@ -109,6 +110,9 @@ DIRECTED = [
     ("Rattle", "1", "1.1", "0.1"), ("Rattle", "0", "0.14", "0.02"),
     ("BackwardEuler", "1", "1.3", "0.1"), ("BackwardEuler", "0", "0.28", "0.02"),
     ("DualStormerVerlet:LU", "1", "1.1", "0.1"), ("DualStormerVerlet:MINRES (matrix free)", "0", "0.14", "0.02"),
+    # decimal multiples of the step far from the time origin (the round-off of t1 - t0 is absolute there)
+    ("Moreau", "86400", "86400.001", "0.0001"), ("Rattle", "3600", "3600.0001", "0.00001"), ("ScipyIVP", "1000000", "1000000.003", "0.001"),
+    ("BackwardEuler", "31536000", "31536000.3", "0.1"), ("DualStormerVerlet:LU", "86400", "86400.001", "0.0001"), ("ScipyDAE", "3600", "3600.0001", "0.00001"),
 ]
 
 
@@ -217,6 +221,11 @@ def build_system(rng, kind, t0, t1=None):
     elif kind == "free_rb":
         rb, A, m = _rb(rng, RigidBody, u0=rng.normal(size=6))
         S.add(rb, Force(m * g, rb, B_r_CP=rng.normal(size=3) * 0.2, name="force"))
+        if rng.random() < 0.5:
+            # a measurement marker on the body (as in examples/double_pendulum): part of the system that is saved with the solution
+            from cardillo.utility.sensor import Sensor
+            S.add(Sensor(rb, B_r_PQ=rng.normal(size=3) * 0.1, name="marker"))
+            d["sensor"] = True
     elif kind == "pendulum_pm":
         anchor = Frame(r_OP=rng.normal(size=3), name="anchor")
         L = float(rng.uniform(0.3, 1.0))
@@ -335,9 +344,9 @@ def check_contract(ctx, sol, system, solver_name, cls, t0, t1, dt, truncated, de
             inc = np.diff(t)
             if not np.all(inc > 0):
                 ctx.violation(site, "time grid is not strictly increasing", det)
-            elif fixed_step and np.abs(inc - dt).max() > 1e-9 * dt:
+            elif fixed_step and np.abs(inc - dt).max() > 1e-9 * dt + 4 * EPS_T * max(abs(t0), abs(t1)):
                 ctx.violation(site, "time grid increments differ from the requested step", {**det, "max_increment_error": float(np.abs(inc - dt).max())})
-            elif fixed_step and np.abs(t - (t0 + np.arange(nt) * dt)).max() > 1e-6 * dt:
+            elif fixed_step and np.abs(t - (t0 + np.arange(nt) * dt)).max() > 1e-6 * dt + 4 * EPS_T * max(abs(t0), abs(t1)):
                 # (no drift: the k-th instant is t0 + k dt up to a millionth of a step, also after thousands of steps)
                 ctx.violation(site, "time grid drifts away from t0 + k*dt", {**det, "max_drift_in_steps": float(np.abs(t - (t0 + np.arange(nt) * dt)).max() / dt)})
         # ---- ends at the first grid point at or after t1
@@ -346,7 +355,7 @@ def check_contract(ctx, sol, system, solver_name, cls, t0, t1, dt, truncated, de
             ctx.cls("run:truncated")
         else:
             ctx.mon("GRID:end")
-            tol = 1e-9 * dt
+            tol = 1e-9 * dt + 4 * EPS_T * max(abs(t0), abs(t1))       # (times far from the origin are only representable to a few ulp)
             if t[-1] < t1 - tol:
                 ctx.violation(site, "time grid ends before the final time although the run was not truncated", det)
             elif nt > 1 and t[-2] >= t1 - tol:
